@@ -159,12 +159,13 @@ fn build(ch: &mut Chooser, fmt: &'static str) -> FCase {
         "xlsx" => {
             let encn = ch.choose("xlsx.number-encoding", 3); // untyped, t="n", formula result
             let prefix = ch.flag("xlsx.prefix");
+            let omit = ch.flag("xlsx.general-xf-without-numFmtId");
             let mut c = xlsx::XCell::new(1, 1, xlsx::XVal::Num(format!("{v}")));
             c.style = Some(style);
             if encn == 2 { c.formula = Some(xlsx::XFormula::Plain("1+1".into())); }
-            let book = xlsx::XBook { sheets: vec![xlsx::XSheet::new("S", vec![c])], styles: Some(xlsx::XStyles { num_fmts: fmts.iter().map(|(a, b)| (*a as u32, b.clone())).collect(), cell_xfs: xfs.iter().map(|x| *x as u32).collect(), cell_style_xfs: vec![14, 0] }), date1904: Some(is1904), ..Default::default() };
+            let book = xlsx::XBook { sheets: vec![xlsx::XSheet::new("S", vec![c])], styles: Some(xlsx::XStyles { num_fmts: fmts.iter().map(|(a, b)| (*a as u32, b.clone())).collect(), cell_xfs: xfs.iter().map(|x| *x as u32).collect(), cell_style_xfs: vec![14, 0], omit_general_numfmt: omit }), date1904: Some(is1904), ..Default::default() };
             let e = xlsx::XEnc { prefix, explicit_t_n: encn == 1, ..Default::default() };
-            FCase { bytes: xlsx::write(&book, &e), expect: expect_num(v), desc: format!("xlsx style={label} v={v} 1904={is1904} enc={encn} prefix={prefix} xf@{style}"), fmt }
+            FCase { bytes: xlsx::write(&book, &e), expect: expect_num(v), desc: format!("xlsx style={label} v={v} 1904={is1904} enc={encn} prefix={prefix} general-xf-without-numFmtId={omit} xf@{style}"), fmt }
         }
         "xls" => {
             let mut encs: Vec<(&str, u32)> = vec![("number", 0)];
@@ -192,9 +193,12 @@ fn build(ch: &mut Chooser, fmt: &'static str) -> FCase {
             encs.push(("fmlanum", 0));
             let (ename, w) = encs[ch.choose("xlsb.number-encoding", encs.len()).min(encs.len() - 1)];
             let val = match ename { "real" => xlsb::BVal::Real(v), "fmlanum" => xlsb::BVal::FmlaNum(v, vec![0x1E, 1, 0]), _ => xlsb::BVal::Rk(w) };
-            let book = xlsb::BBook { sheets: vec![xlsb::BSheet::new("S", vec![xlsb::BItem::Cell { row: 1, col: 1, style, val }])], fmts: fmts.clone(), xfs: xfs.clone(), date1904: is1904, ..Default::default() };
+            let mut sh = xlsb::BSheet::new("S", vec![xlsb::BItem::Cell { row: 1, col: 1, style, val }]);
+            let ph = ch.flag("xlsb.cell-fPhShow-bit-set");
+            if ph { sh.cell_flags = 1; }
+            let book = xlsb::BBook { sheets: vec![sh], fmts: fmts.clone(), xfs: xfs.clone(), date1904: is1904, ..Default::default() };
             let expect = match (class, ename) { (0, "rk-int") => Data::Int(v as i64), _ => expect_num(v) };
-            FCase { bytes: xlsb::write(&book, Method::Deflated), expect, desc: format!("xlsb style={label} v={v} 1904={is1904} enc={ename} xf@{style}"), fmt }
+            FCase { bytes: xlsb::write(&book, Method::Deflated), expect, desc: format!("xlsb style={label} v={v} 1904={is1904} enc={ename} fPhShow={ph} xf@{style}"), fmt }
         }
     }
 }
